@@ -183,6 +183,46 @@ pub fn run(rep: &mut Report, tier: &str, seed: u64) {
             }
         }
     }
+    // read-only at run time: bindings the checker never sees (shorthand parameters and the variables of
+    // comprehensions inside shorthand bodies) cannot take the name of a global either
+    let dynamic = [
+        ("global G0\nattribute sh = G0 => shv = G0\n(module) @m {\n  node n\n  attr (n) top = @m, sh = 1\n}\n", true),
+        ("global G0 = \"dflt\"\nattribute sh = G0 => shv = G0\n(module) @m {\n  node n\n  attr (n) top = @m, sh = 1\n}\n", false),
+        ("global G0\nattribute sh = p => shv = [ G0 for G0 in [p] ]\n(module) @m {\n  node n\n  attr (n) top = @m, sh = 1\n}\n", true),
+        ("global G0?\nattribute sh = p => shv = { G0 for G0 in [p, 2] }\n(module) @m {\n  node n\n  attr (n) top = @m, sh = 1\n}\n", true),
+        ("global G0\nglobal G1*\nattribute sh = G1 => shv = 1\nattribute sh2 = q => sh = q\n(module) @m {\n  node n\n  attr (n) top = @m, sh2 = G0\n}\n", true),
+    ];
+    for (text, supply) in dynamic {
+        let file = match load(text) {
+            Ok(Ok(f)) => f,
+            other => {
+                rep.fail("direct", "C16 shorthand program rejected", true, json!({"tsg": text, "result": format!("{:?}", other.map(|x| x.map(|_| "file")))}));
+                continue;
+            }
+        };
+        rep.case(text, true);
+        let loaded = Loaded { program: Program { text: text.to_string(), header: String::new(), stanzas: vec![text.to_string()], globals: vec![], stanza_count: 1, has_fault: false, features: vec![], static_fault: None }, file };
+        let mi = model_input(&loaded.file, &source.tree, &source.src, &info);
+        let case = Case { tsg: text, loaded: &loaded, source: &source, info: &info, mi: &mi };
+        let mut globals = Vec::new();
+        if supply {
+            globals.push(("G0".to_string(), Value::String("supplied".into())));
+        }
+        if text.contains("global G1*") {
+            globals.push(("G1".to_string(), Value::List(vec![Value::Integer(1)])));
+        }
+        for lazy in [false, true] {
+            let mode = if lazy { "lazy" } else { "strict" };
+            let cfg = RunCfg { lazy, globals: globals.clone(), outer_globals: vec![], debug: None, cancel_at: None };
+            let res = runner.check_mode(rep, &case, &cfg, true, false);
+            if res.class != "err:DuplicateVariable" {
+                rep.fail("direct", &format!("C16 {}: a binding with the name of a global was accepted at run time (expected DuplicateVariable, got {})", mode, res.class), true,
+                    json!({"tsg": text, "mode": mode, "observed": res.run.outcome.pretty()}));
+            } else {
+                rep.count("runtime-hiding-rejected");
+            }
+        }
+    }
     // static read-only rules
     let statics = [
         ("global g\nglobal g\n(module) @_m { }", "Duplicate global variable"),
